@@ -91,6 +91,9 @@ pub struct VolCfg {
     /// C20: pre-mark the last k clusters of the volume as unusable (bad) so that 'last clusters taken' is reachable
     #[serde(default)]
     pub tail_taken: u8,
+    /// the device is not blank when it is formatted (every byte never written reads as a position-dependent pattern)
+    #[serde(default)]
+    pub dirty_medium: bool,
 }
 
 #[derive(Clone, Debug, Default, Serialize, Deserialize)]
